@@ -574,9 +574,11 @@ var valueProp = vh.Define("C16", "value-roundtrip", func(c ValueCase, r *vh.R) {
 			r.Failf("not-unique", "ParameterisedList{m}.String()=%q but m.String()=%q", trunc(s), trunc(parts[0]))
 			return
 		}
-		for _, ps := range parts {
-			if !strings.Contains(s, ps) {
-				r.Failf("not-unique", "member text %q (from (*ParameterisedIdentifier).String) does not occur in the list text %q", trunc(ps), trunc(s))
+		wantPL := c.ref().PL
+		for i, ps := range parts {
+			pr := refsh.ParseParameterisedList(ps)
+			if pr.Verdict != refsh.Accept || len(pr.PL) != 1 || !refsh.EqualMember(pr.PL[0], wantPL[i]) || !refsh.KeysAscending(pr.PL) {
+				r.Failf("output-wrong-value", "(*ParameterisedIdentifier).String() of member %d gave %q, which does not read back as that member with sorted keys (%s %s; value %s)", i, trunc(ps), pr.Verdict, pr.Why, showRef(refsh.Value{PL: wantPL[i : i+1]}))
 				return
 			}
 		}
@@ -921,6 +923,7 @@ func genBadItem(t *rapid.T, param bool) ItemC {
 }
 
 func genInvalid(t *rapid.T) ValueCase {
+	_ = rapid.Uint64().Draw(t, "salt") // the driver gives every spec the same seed: decorrelate from the valid-value stream
 	c := genValue(t)
 	if c.Kind == "pl" {
 		mi := rapid.IntRange(0, len(c.PL)-1).Draw(t, "member")
@@ -1269,7 +1272,7 @@ func renderItem(d drawer, it ItemC, b *strings.Builder) {
 		switch {
 		case it.I == 0 && d.n(3, "negzero") == 0:
 			b.WriteString("-0")
-		case d.n(12, "leadzero") == 0: // reference answers Unspecified
+		case d.n(40, "leadzero") == 0: // reference answers Unspecified
 			if it.I < 0 {
 				b.WriteString("-0" + strconv.FormatUint(uint64(-it.I), 10))
 			} else {
@@ -1371,6 +1374,7 @@ const editAlphabet = "aAzZbB019 \t-_;;,,==\"\"\\\\**/+.:%?~\r\n\x00\x7f\x80"
 
 func genMutated(t *rapid.T) StrCase {
 	d := drawer{t}
+	_ = rapid.Uint32().Draw(t, "salt") // see genInvalid
 	v := genValue(t)
 	s := renderValue(d, v)
 	parser := v.Kind
